@@ -144,7 +144,7 @@ class Credits(Mode):
                        "currency value of %s and a price per game of %s",
                        self.credit_unit, min_currency_value, price_per_game)
 
-        self.credit_units_per_game = int(price_per_game / self.credit_unit)
+        self.credit_units_per_game = int(round(price_per_game / self.credit_unit, 6))
 
         self.info_log("Credit units per game: %s", self.credit_units_per_game)
 
@@ -172,7 +172,7 @@ class Credits(Mode):
 
         for index, pricing_tier in enumerate(self.credits_config['pricing_tiers']):
             price = pricing_tier['price'].evaluate([])
-            credit_units = price / self.credit_unit
+            credit_units = round(price / self.credit_unit, 6)
             credits_in_tier = pricing_tier['credits'].evaluate([])
             actual_credit_units = self.credit_units_per_game * credits_in_tier
             bonus = actual_credit_units - credit_units
@@ -429,7 +429,7 @@ class Credits(Mode):
 
     def _credit_switch_callback(self, value, audit_class, key_name):
         self.info_log("Credit switch hit. Credit Added. Value: %s. Type: %s keyName: %s", value, audit_class, key_name)
-        self._add_credit_units(credit_units=value / self.credit_unit)
+        self._add_credit_units(credit_units=round(value / self.credit_unit, 6))
         self._audit(value, audit_class, key_name)
         self._reset_timeouts()
 
